@@ -36,6 +36,12 @@
 //     own update: in-place rewriting; an empty next block: tree growth, after which the real accumulator validates
 //     every copy's proofs).  PurityTrace demands: same content + same update => same content, and no other cell
 //     (neighbouring element, same element of another copy, the source) changes.
+//     3c. Results are independent values over HISTORIES (Purity!Place / Look; design model OwnershipMC, holders.go): the
+//     updates of a whole chain are kept, holders that obtained the elements of every update's diffs differently refresh
+//     every element they keep (spent, revised, resolved ones included) with every ApplyUpdate / RevertUpdate in turn, and
+//     after every refresh the array that backs the refreshed cell must be memory of that holder alone (not of the update
+//     used, of an earlier update, of another holder); every update ever returned is looked at again (deep digest) after
+//     every pass.  The same ownership clause is applied to every refresh of the update experiments of 3b.
 //  4. The harness is built with -race; the check body runs in a child process so that a race report becomes a
 //     violation (key race/<first frame inside core>) instead of a crash.
 package main
@@ -192,6 +198,7 @@ type totals struct {
 	keyRuns                              map[string]int
 	applyGuardNote                       string
 	upd                                  updStats
+	hist                                 histStats
 	fixedRun, fixedOK                    int
 	differs                              map[string]int // copies of accepted blocks whose content is not the original's
 	refs                                 map[string]int // cases by class of repeated element reference
@@ -205,6 +212,8 @@ type env struct {
 	cb    *copyBook
 	t     *totals
 	nCase atomic.Int64
+	// the history experiment (holders.go) runs on every histEvery-th drawn behaviour and on every fixed one
+	histEvery int
 }
 
 func defects() []string {
@@ -263,10 +272,23 @@ func advance(sim *chain.Sim, st chain.Step) (err error) {
 }
 
 // runBehaviour returns the number of steps on which specification and code agreed.
-func (e *env) runBehaviour(shape string, p chain.Params, beh *chain.Behaviour) (agreed int) {
+func (e *env) runBehaviour(shape string, p chain.Params, beh *chain.Behaviour, idx int) (agreed int) {
 	sim := chain.NewSim(p)
 	t := e.t
 	local := 0
+	var hist *history
+	if isFixed(beh) || (e.histEvery > 0 && idx%e.histEvery == 0) {
+		hist = newHistory(e.rec, sim, &caseInfo{n: idx, g: 1, params: p, beh: beh.Steps, shape: shape, hist: true}, beh.Hash)
+		defer func() {
+			hs, err := hist.finish()
+			if err != nil {
+				e.c.Infra("behaviour %s: %v", beh.Hash, err)
+			}
+			t.mu.Lock()
+			t.hist.add(hs)
+			t.mu.Unlock()
+		}()
+	}
 	for i, st := range beh.Steps {
 		local++
 		agreed = i
@@ -275,9 +297,13 @@ func (e *env) runBehaviour(shape string, p chain.Params, beh *chain.Behaviour) (
 				e.c.Infra("behaviour %s: revert below genesis", beh.Hash)
 				return
 			}
-			if pan, v := vlib.Recover(func() { sim.Revert() }); pan {
+			var undone chain.Applied
+			if pan, v := vlib.Recover(func() { undone, _ = sim.Revert() }); pan {
 				t.note("C10:panic/revert", fmt.Sprint(v))
 				break
+			}
+			if hist != nil {
+				hist.reverted(undone)
 			}
 			t.mu.Lock()
 			t.reverts++
@@ -360,6 +386,9 @@ func (e *env) runBehaviour(shape string, p chain.Params, beh *chain.Behaviour) (
 			if pan, v := vlib.Recover(func() { ctx.Commit(); sim.Apply(in.B, in.Supp) }); pan {
 				t.note("C10:panic/apply/"+tag, fmt.Sprint(v))
 				break
+			}
+			if hist != nil {
+				hist.applied(sim.Chain[len(sim.Chain)-1])
 			}
 		}
 		agreed = i + 1
@@ -493,10 +522,10 @@ func (e *env) runShape(name string, num, depth int) {
 	for i := range behs {
 		wg.Add(1)
 		sem <- struct{}{}
-		go func(b *chain.Behaviour) {
+		go func(b *chain.Behaviour, idx int) {
 			defer wg.Done()
 			defer func() { <-sem }()
-			done := e.runBehaviour(name, cfg.P, b)
+			done := e.runBehaviour(name, cfg.P, b, idx)
 			if isFixed(b) {
 				e.t.mu.Lock()
 				e.t.fixedRun++
@@ -508,7 +537,7 @@ func (e *env) runShape(name string, num, depth int) {
 					e.c.Infra("fixed behaviour %s: only %d of %d steps were built and accepted by the real code", b.Hash, done, len(b.Steps))
 				}
 			}
-		}(&behs[i])
+		}(&behs[i], i)
 	}
 	wg.Wait()
 	if len(behs) > 0 {
@@ -537,7 +566,7 @@ func work() {
 		replay(c)
 		return
 	}
-	c.Rule("Cases: every block (with its supplement and parent state) of TLC-simulated Ledger behaviours on three network shapes — valid blocks and blocks ending in a defective transaction of the families unbalanced, auth, reuse, intx, timing, revision, proof, formation; reverts and re-applies included — taken before anything has validated it. Per case 6 entry points (validate, per-transaction path, element proofs, apply, revert, encode) x 5 memories (original twice, decoded via multiproof, Share()d proofs, DeepCopy/Copy, JSON; a copy of a block the specification accepts is filed under the key of the original even when its content differs) plus the call of every pooled hashing entry point (block contents and a synthetic set; once sequentially before the concurrent phase, then concurrently on every memory) run from G goroutines (G cycles through 1, 2, 8, 32), under the race detector. For every valid block with non-ephemeral elements additionally 2 update experiments (the block's own update; an empty next block's) x 6 copies of its element proofs obtained differently (independent allocation, multiproof decode, plain decode, JSON, DeepCopy/Copy, Share()d then copied): one UpdateElementProof call per element and copy (logged as M with audits of the neighbouring cells, the other copies and the source), then ValidateTransactionElements / leaf membership of every updated copy. Twelve fixed behaviours (v1 contract formed and revised / revised twice / revised and proved in one block, the un-transmitted payout of every v1 revision holding a value in memory that no decoder fills in; v2 storage proof among payments, renewal, expiration, v1 contract life cycle; two revisions of one contract in one block, revision then renewal, two storage proofs under one chain index element; v1 signatures with field-by-field coverage alone and followed by v2 blocks) run among the drawn ones of their shape, with 8 or 32 callers. evaluations = calls executed and logged (entry point calls + UpdateElementProof calls + validations after update); distinct_nontrivial = distinct keys <<function, content hash of inputs>> that were called at least twice (the agreement clause was exercised), from different goroutines or different copies. The address probes of copy/decode results are counted in coverage (copy_operations_probed), not in evaluations.")
+	c.Rule("Cases: every block (with its supplement and parent state) of TLC-simulated Ledger behaviours on three network shapes — valid blocks and blocks ending in a defective transaction of the families unbalanced, auth, reuse, intx, timing, revision, proof, formation; reverts and re-applies included — taken before anything has validated it. Per case 6 entry points (validate, per-transaction path, element proofs, apply, revert, encode) x 5 memories (original twice, decoded via multiproof, Share()d proofs, DeepCopy/Copy, JSON; a copy of a block the specification accepts is filed under the key of the original even when its content differs) plus the call of every pooled hashing entry point (block contents and a synthetic set; once sequentially before the concurrent phase, then concurrently on every memory) run from G goroutines (G cycles through 1, 2, 8, 32), under the race detector. For every valid block with non-ephemeral elements additionally 2 update experiments (the block's own update; an empty next block's) x 6 copies of its element proofs obtained differently (independent allocation, multiproof decode, plain decode, JSON, DeepCopy/Copy, Share()d then copied): one UpdateElementProof call per element and copy (logged as M with audits of the neighbouring cells, the other copies and the source), then ValidateTransactionElements / leaf membership of every updated copy. Fifteen fixed behaviours (an output spent, the next block, its revert and another block, in v1 and in v2 form; a v2 storage proof applied, reverted and applied again; v1 contract formed and revised / revised twice / revised and proved in one block, the un-transmitted payout of every v1 revision holding a value in memory that no decoder fills in; v2 storage proof among payments, renewal, expiration, v1 contract life cycle; two revisions of one contract in one block, revision then renewal, two storage proofs under one chain index element; v1 signatures with field-by-field coverage alone and followed by v2 blocks) run among the drawn ones of their shape, with 8 or 32 callers. Histories (ownership of backing arrays, Purity!Place / Look, design model OwnershipMC): on every third drawn behaviour (thorough: every tenth of twenty times as many) and every fixed one the whole chain - genesis, every accepted block, reverts and what is built on top - is replayed for three holders that obtained every element of every update's diffs differently (Copy(); JSON round trip, elements of a reverted block taken afresh from the RevertUpdate; Copy() of the first holder's already refreshed elements after the third update) and refresh every element they keep, spent / revised / resolved ones included, with each ApplyUpdate / RevertUpdate in turn: one M per UpdateElementProof with the array that backs the cell afterwards, P for every update returned (every proof array reachable from it) and every element taken, L (deep digest) of EVERY update returned so far after every holder's pass, audits of the other holders, and the real accumulator's judgement of every proof each holder keeps (one key per update). evaluations = calls executed and logged (entry point calls + UpdateElementProof calls + validations after update + refreshes, looks and judgements of the histories); distinct_nontrivial = distinct keys <<function, content hash of inputs>> that were called at least twice (the agreement clause was exercised), from different goroutines or different copies. The address probes of copy/decode results are counted in coverage (copy_operations_probed), not in evaluations.")
 	c.Assume("the digest (reflection walk over every field, slice up to capacity, pointer and interface; sha256) changes whenever memory reachable from the inputs changes")
 	c.Assume("data races are found by the Go race detector while the trace is recorded, not by the model")
 	c.Assume("honest v1 supplements (chain harness store)")
@@ -564,8 +593,40 @@ func work() {
 		}
 	}
 
+	// 1b. ownership of backing arrays over histories of updates (Purity!Place / Look)
+	ownCfg := "OwnershipMC1.cfg"
+	if c.Thorough {
+		ownCfg = "OwnershipMC.cfg"
+	}
+	ores := c.MustTLC(vlib.TLCOpts{SpecDirs: []string{"pure"}, Module: "OwnershipMC", Config: ownCfg, Coverage: true, Workers: 8})
+	oacts := map[string]int64{}
+	for _, m := range reCov.FindAllStringSubmatch(ores.Out, -1) {
+		n, _ := strconv.ParseInt(m[3], 10, 64)
+		if n > oacts[m[1]] {
+			oacts[m[1]] = n
+		}
+	}
+	c.Cov("ownership_mc_states", ores.Distinct)
+	c.Cov("ownership_mc_actions", oacts)
+	for _, a := range []string{"DoPublish", "DoPublishOn", "DoTrack", "DoTrackAlias", "DoRefresh", "DoRefreshMove", "DoRefreshAdopt", "DoLook"} {
+		if oacts[a] == 0 {
+			c.Infra("vacuity: action %s of OwnershipMC never taken", a)
+		}
+	}
+	// without the Place clause the specification accepts a history in which a returned update changes: a refresh that
+	// adopts the update's array, then any refresh in place (the shape the history experiment must contain)
+	bres, err := c.TLC(vlib.TLCOpts{SpecDirs: []string{"pure"}, Module: "OwnershipMC", Config: "OwnershipBlind.cfg", Workers: 4, NoCount: true})
+	if err != nil {
+		c.Fatal("OwnershipMC (blind): %v", err)
+	}
+	adopt, later := strings.Index(bres.Out, `kind |-> "refresh-adopt"`), strings.LastIndex(bres.Out, `kind |-> "refresh"`)
+	if bres.Violated != "UpdatesKeepContents" || adopt < 0 || later < adopt {
+		c.Infra("OwnershipMC without the Place clause: expected a violation of UpdatesKeepContents by refresh-adopt followed by a refresh in place, got %q: %s", bres.Violated, vlib.Tail(bres.Out, 800))
+	}
+	c.Cov("ownership_mc_without_place_clause", "UpdatesKeepContents violated by: publish, track, refresh-adopt, refresh (in place)")
+
 	// 2. copy operations on fully populated values
-	e := &env{c: c, rec: &recorder{}, cb: newCopyBook(), t: &totals{byG: map[int]int{}, variants: map[string]int{}, sameKey: map[string]int{},
+	e := &env{c: c, rec: &recorder{}, cb: newCopyBook(), histEvery: c.Pick(3, 10), t: &totals{byG: map[int]int{}, variants: map[string]int{}, sameKey: map[string]int{},
 		panics: map[string]int{}, tags: map[string]int{}, foreign: map[string]int{}, keyRuns: map[string]int{}, differs: map[string]int{}, refs: map[string]int{}, partialByG: map[int]int{}}}
 	probeElements(e.cb)
 
@@ -581,6 +642,8 @@ func work() {
 
 	// 4. TLC validates the log
 	lines := fileByCase(e.rec.events)
+	ov := overlap(e.rec.events)
+	e.rec.events = nil // the filed copy is what is used from here on
 	t1 := time.Now()
 	validateTrace(c, lines)
 	c.Cov("trace_validation_wall_s", time.Since(t1).Seconds())
@@ -609,7 +672,7 @@ func work() {
 			nontriv++
 		}
 	}
-	c.Count(int64(t.calls+t.upd.updates+t.upd.validated), int64(nontriv))
+	c.Count(int64(t.calls+t.upd.updates+t.upd.validated+t.hist.refreshes+t.hist.looks+t.hist.valid), int64(nontriv))
 	c.Cov("fixed_behaviours_accepted", fmt.Sprintf("%d of %d", t.fixedOK, t.fixedRun))
 	if t.fixedRun != len(fixedBehaviours()) {
 		c.Infra("vacuity: %d of %d fixed behaviours ran", t.fixedRun, len(fixedBehaviours()))
@@ -683,6 +746,44 @@ func work() {
 	if t.upd.validated == 0 {
 		c.Infra("vacuity: updated element proofs were never validated by the real accumulator")
 	}
+	hs := t.hist
+	c.Cov("history_goroutine_seconds", time.Duration(nsHist.Load()).Seconds())
+	c.Cov("history_experiments", hs.runs)
+	c.Cov("history_experiments_by_shape", hs.byShape)
+	c.Cov("history_updates_returned_apply_revert", []int{hs.applies, hs.reverts})
+	c.Cov("history_refreshes_UpdateElementProof", hs.refreshes)
+	c.Cov("history_refreshes_grown_by_append", hs.grown)
+	c.Cov("history_refreshes_rewritten_in_place", hs.rewritten)
+	c.Cov("history_elements_taken_from_diffs", hs.tracked)
+	c.Cov("history_elements_copied_from_a_refreshed_holder", hs.late)
+	c.Cov("history_elements_taken_afresh_on_revert", hs.retaken)
+	c.Cov("history_looks_at_returned_updates", hs.looks)
+	c.Cov("history_refreshes_of_an_element_the_update_itself_updated", hs.sameLeaf)
+	c.Cov("history_such_cells_rewritten_in_place_by_a_later_refresh", hs.rewrittenAfterwards)
+	c.Cov("history_holder_proofs_judged_by_the_accumulator", hs.valid)
+	c.Cov("history_first_holder_keeps_a_proof_the_accumulator_refuses_information_only", hs.invalid)
+	if hs.runs == 0 || hs.reverts == 0 || hs.late == 0 || hs.retaken == 0 || hs.grown == 0 || hs.rewritten == 0 || hs.looks == 0 || hs.valid == 0 {
+		c.Infra("vacuity: history experiments %d, reverts %d, elements copied from a refreshed holder %d, taken afresh on revert %d, refreshes grown %d / rewritten %d, looks %d, judged %d",
+			hs.runs, hs.reverts, hs.late, hs.retaken, hs.grown, hs.rewritten, hs.looks, hs.valid)
+	}
+	// the shape OwnershipMC shows to be the damaging one: a refresh by an update that itself updated the element, and a
+	// later refresh that rewrites that cell in place - for applied blocks of both eras and for reverts
+	for _, cl := range []string{"apply/v1", "apply/v2", "revert/v1", "revert/v2"} {
+		a, b := 0, 0
+		for k, v := range hs.sameLeaf {
+			if strings.HasPrefix(k, cl+"/") {
+				a += v
+			}
+		}
+		for k, v := range hs.rewrittenAfterwards {
+			if strings.HasPrefix(k, cl+"/") {
+				b += v
+			}
+		}
+		if a == 0 || b == 0 {
+			c.Infra("vacuity: histories with an element refreshed by the %s update that itself updated it: %d; of these rewritten in place by a later refresh: %d", cl, a, b)
+		}
+	}
 	c.Cov("behaviours", t.behaviours)
 	c.Cov("steps", t.steps)
 	c.Cov("cases", t.cases)
@@ -704,7 +805,7 @@ func work() {
 	c.Cov("updates_sharing_a_resolution_proof_object_with_the_block_information_only", wideAliases.Load())
 	c.Cov("distinct_keys", len(keys))
 	c.Cov("trace_lines", len(lines))
-	c.Cov("max_concurrent_calls_by_goroutines", overlap(e.rec.events))
+	c.Cov("max_concurrent_calls_by_goroutines", ov)
 	if t.valid == 0 || t.invalid == 0 {
 		c.Infra("vacuity: %d valid and %d invalid blocks", t.valid, t.invalid)
 	}
@@ -716,7 +817,6 @@ func work() {
 			c.Infra("vacuity: no case ran with %d goroutines", g)
 		}
 	}
-	ov := overlap(e.rec.events)
 	for _, g := range []int{8, 32} {
 		if ov[g] < 2 && os.Getenv("C09_WIDTHS") == "" {
 			c.Infra("vacuity: calls never overlapped at %d goroutines", g)
@@ -837,7 +937,7 @@ func reportCopies(c *vlib.Ctx, cb *copyBook) {
 // ---------------------------------------------------------------------------
 // trace validation
 
-const maxLinesPerRun = 200000
+const maxLinesPerRun = 260000
 
 // tlcRejects runs TLC on one file of the trace.
 func tlcRejects(c *vlib.Ctx, lines []Event, count bool) ([]reject, error) {
@@ -954,7 +1054,7 @@ func judge(c *vlib.Ctx, lines []Event, rj []reject) {
 		if ci != nil && attempts < 10 {
 			attempts++
 			tried = true
-			payload["params"], payload["behaviour"], payload["g"], payload["shape"] = ci.params, ci.beh, ci.g, ci.shape
+			payload["params"], payload["behaviour"], payload["g"], payload["shape"], payload["hist"] = ci.params, ci.beh, ci.g, ci.shape, ci.hist
 			for try := 0; try < 3 && !reproduced; try++ {
 				keys, err := rerun(ci)
 				if err != nil {
@@ -1001,7 +1101,7 @@ func describe(lines []Event, r reject) described {
 		}
 	}
 	switch ev.Ev {
-	case "B", "E", "M":
+	case "B", "E", "M", "P", "L":
 		info = ev.call
 	case "A":
 		if ev.call != nil { // update experiment: the harness says which cell this is and which update preceded
@@ -1037,6 +1137,110 @@ func describe(lines []Event, r reject) described {
 			}
 		}
 		return ""
+	}
+	// ownership of backing arrays: who shares memory with the cell that was placed
+	if name == "refresh-shares-array" || name == "array-shared" {
+		reg := map[string]placed{}
+		for i := s + 1; i < r.Line-1; i++ {
+			if lines[i].Ev == "M" || lines[i].Ev == "P" {
+				reg[lines[i].Mem] = placed{lines[i].Who, lines[i].Frozen, lines[i].Regs}
+			}
+		}
+		with := map[string]bool{}
+		var names []string
+		for _, m := range sharers(reg, ev) {
+			o := reg[m]
+			names = append(names, m)
+			switch {
+			case o.frozen && ev.Frozen:
+				with["another-update"] = true
+			case o.frozen && info != nil && strings.Contains(m, ".") && strings.HasSuffix(info.note, " with "+m[strings.Index(m, ".")+1:]):
+				with["the-update-applied"] = true
+			case o.frozen && ev.Ev == "M" && !strings.HasPrefix(ev.Op, "history-"):
+				with["the-update-applied"] = true
+			case o.frozen:
+				with["an-earlier-update"] = true
+			case o.who == ev.Who:
+				with["another-element-of-the-same-holder"] = true
+			case ev.Frozen:
+				with["a-holder"] = true
+			default:
+				with["another-holder"] = true
+			}
+		}
+		if len(with) == 0 {
+			with["itself"] = true
+		}
+		var ws []string
+		for w := range with {
+			ws = append(ws, w)
+		}
+		sort.Strings(ws)
+		// one defect, one key: the class is named by the most telling owner the memory is shared with
+		primary := "itself"
+		for _, w := range []string{"another-element-of-the-same-holder", "a-holder", "another-holder", "another-update", "an-earlier-update", "the-update-applied"} {
+			if with[w] {
+				primary = w
+			}
+		}
+		op, kind, note := ev.Op, "?", ""
+		if info != nil {
+			kind, note = info.kind, info.note
+			if op == "" {
+				op = info.fn
+			}
+		}
+		if name == "refresh-shares-array" {
+			d.key = fmt.Sprintf("refresh-shares-array/%s/%s", op, primary)
+			d.what = fmt.Sprintf("after UpdateElementProof (%s) on an element the %s holder keeps (%s), the element's proof lives in memory that is also memory of %s (%s): the refresh handed the caller an array it does not own, so the next in-place refresh of this element rewrites a value that was returned earlier",
+				op, kind, note, strings.Join(ws, ", "), strings.Join(names, ", "))
+		} else {
+			d.key = fmt.Sprintf("array-shared/%s/%s/%s", ev.By, op, primary)
+			d.what = fmt.Sprintf("a value that was just returned or copied (%s, %s %s) lives in memory that is also memory of %s (%s)", ev.By, kind, note, strings.Join(ws, ", "), strings.Join(names, ", "))
+		}
+		return d
+	}
+	if name == "result-changed-after-return" {
+		// the last refresh before this look
+		lastOp, lastKind, lastNote := "?", "?", ""
+		for i := r.Line - 2; i > s; i-- {
+			if lines[i].Ev == "M" && lines[i].call != nil {
+				lastOp, lastKind, lastNote = lines[i].Op, lines[i].call.kind, lines[i].call.note
+				break
+			}
+		}
+		which := "?"
+		if info != nil {
+			which = info.note
+		}
+		d.key = fmt.Sprintf("update-modified-after-return/%s-update/by-%s", which, lastOp)
+		d.what = fmt.Sprintf("the update returned by an earlier %s (%s) no longer has the contents it was returned with (deep digest of everything reachable from it, proofs of its diffs and updated leaves included); the last operation before it was looked at again: UpdateElementProof (%s) on an element of the %s holder (%s)", which, ev.Mem, lastOp, lastKind, lastNote)
+		return d
+	}
+	if info != nil && strings.HasPrefix(info.fn, "history-") && (ev.Ev == "A" || ev.Ev == "M") {
+		switch name {
+		case "input-changed-when-quiet":
+			d.key = fmt.Sprintf("refresh-modifies-other-holder/%s", info.fn)
+			d.what = fmt.Sprintf("bringing the elements of the %s holder up to date (%s) changed proofs the %s holder keeps: the two share proof memory", info.updKind, info.note, info.kind)
+			return d
+		case "cell-changed-before-update":
+			d.key = fmt.Sprintf("holder-cell-changed-before-refresh/%s", info.fn)
+			d.what = fmt.Sprintf("the proof the %s holder keeps of %s is not what its last refresh left: somebody else wrote it", info.kind, info.note)
+			return d
+		case "update-result-differs":
+			other := "?"
+			for i := s + 1; i < r.Line-1; i++ {
+				if lines[i].Ev == "M" && lines[i].Fn == ev.Fn && lines[i].call != nil {
+					other = lines[i].call.kind
+					break
+				}
+			}
+			ks := []string{other, info.kind}
+			sort.Strings(ks)
+			d.key = fmt.Sprintf("refresh-result-differs/%s/%s", info.fn, strings.Join(ks, "-vs-"))
+			d.what = fmt.Sprintf("UpdateElementProof (%s) leaves the %s holder with other proof contents than the %s holder, although both held the same contents and the same update was applied", info.note, info.kind, other)
+			return d
+		}
 	}
 	if info != nil && strings.HasPrefix(info.fn, "update-") && (ev.Ev == "A" || ev.Ev == "M") {
 		switch name {
@@ -1162,6 +1366,20 @@ func rerun(ci *caseInfo) (map[string]bool, error) {
 	steps, ok := ci.beh.([]chain.Step)
 	if !ok || len(steps) == 0 {
 		return nil, fmt.Errorf("no behaviour")
+	}
+	if ci.hist {
+		rec := &recorder{}
+		if err := runHistory(rec, p, steps, ci); err != nil {
+			return nil, err
+		}
+		out := map[string]bool{}
+		lines := fileByCase(rec.events)
+		for _, r := range goCheck(lines) {
+			if strings.HasPrefix(r.Msg, "V:") {
+				out[describe(lines, r).key] = true
+			}
+		}
+		return out, nil
 	}
 	sim := chain.NewSim(p)
 	for i, st := range steps[:len(steps)-1] {
@@ -1318,10 +1536,71 @@ func selfTestUpdate(c *vlib.Ctx, lines []Event) {
 				c.Infra("self test (update): TLC and the harness's transcription disagree on the corrupted log")
 			}
 			c.Cov("selftest_corrupted_update_log_rejected", len(rj))
+			selfTestHistory(c, lines)
 			return
 		}
 	}
 	c.Infra("self test (update): no update segment with two copies updated under one key")
+}
+
+// selfTestHistory corrupts a history segment: the array a refreshed cell lives in (moved onto an array of a returned
+// update) and the digest of a returned update when it is looked at again; the specification must reject exactly there.
+func selfTestHistory(c *vlib.Ctx, lines []Event) {
+	for s := 0; s < len(lines); s++ {
+		if lines[s].Ev != "seg" || !strings.HasPrefix(lines[s].Case, "hist/") {
+			continue
+		}
+		e := s + 1
+		for e < len(lines) && lines[e].Ev != "seg" {
+			e++
+		}
+		seg := append([]Event{}, lines[s:e]...)
+		if len(goCheck(seg)) > 0 {
+			continue
+		}
+		pub, ref, look := -1, -1, -1
+		looked := map[string]bool{}
+		for i, ev := range seg {
+			switch {
+			case ev.Ev == "P" && ev.By == "publish" && len(ev.Regs) > 0 && pub < 0:
+				pub = i
+			case ev.Ev == "M" && len(ev.Regs) > 0 && pub >= 0 && ref < 0:
+				ref = i
+			case ev.Ev == "L":
+				if looked[ev.Mem] && look < 0 && ref >= 0 {
+					look = i
+				}
+				looked[ev.Mem] = true
+			}
+		}
+		if pub < 0 || ref < 0 || look < 0 {
+			continue
+		}
+		mut := append([]Event{}, seg...)
+		moved := *seg[ref].own // (the lines share their ownership record with the log: corrupt a copy)
+		moved.Regs = [][2]int{seg[pub].Regs[0]}
+		mut[ref].own = &moved // the refreshed cell now lives in an array of the update
+		mut[look].D += "~"    // the update is not what it was returned as
+		rj, err := tlcRejects(c, mut, false)
+		if err != nil {
+			c.Fatal("self test (history): %v", err)
+		}
+		got := map[string]bool{}
+		for _, r := range rj {
+			got[fmt.Sprintf("%d %s", r.Line, strings.SplitN(r.Msg, " ", 2)[0])] = true
+		}
+		for _, w := range []string{fmt.Sprintf("%d V:refresh-shares-array", ref+1), fmt.Sprintf("%d V:result-changed-after-return", look+1)} {
+			if !got[w] {
+				c.Infra("self test (history): corrupting the log did not produce %q (got %v)", w, head(rj, 6))
+			}
+		}
+		if !sameRejects(rj, goCheck(mut)) {
+			c.Infra("self test (history): TLC and the harness's transcription disagree on the corrupted log")
+		}
+		c.Cov("selftest_corrupted_history_log_rejected", len(rj))
+		return
+	}
+	c.Infra("self test (history): no history segment with a returned update, a refresh and a second look")
 }
 
 // ---------------------------------------------------------------------------
@@ -1339,6 +1618,7 @@ func replay(c *vlib.Ctx) {
 			Params    chain.Params `json:"params"`
 			Behaviour []chain.Step `json:"behaviour"`
 			G         int          `json:"g"`
+			Hist      bool         `json:"hist"`
 			Op, Path  string
 		} `json:"case"`
 	}
@@ -1352,7 +1632,7 @@ func replay(c *vlib.Ctx) {
 		probeElements(cb)
 		reportCopies(c, cb)
 	case "case":
-		ci := &caseInfo{n: 1, g: f.Case.G, params: f.Case.Params, beh: f.Case.Behaviour}
+		ci := &caseInfo{n: 1, g: f.Case.G, params: f.Case.Params, beh: f.Case.Behaviour, hist: f.Case.Hist}
 		for try := 0; try < 5; try++ {
 			keys, err := rerun(ci)
 			if err != nil {
